@@ -32,16 +32,37 @@ def _check_order(log, kids, gone=()):
     return True
 
 
-def check_posix_recursive_kill(parents: List[int], vanished: int) -> bool:
+def check_posix_recursive_kill(parents: List[int], vanished: int, helper_thread: int = 0) -> bool:
     """
     pre: len(parents) <= 4 and all(0 <= parents[i] <= i for i in range(len(parents)))
-    pre: -1 <= vanished <= 4
+    pre: -1 <= vanished <= 4 and 0 <= helper_thread <= 15
     post: _
     """
     parents = [_conc(p, 4) for p in parents]
     vanished = _conc(vanished + 1, 5) - 1
+    helper_thread = _conc(helper_thread, 15)
     kids = _tree(parents)
     log = Log()
+    # kernel view offered besides pgrep: /proc/<pid>/task/<tid>/children lists the children forked by *that thread*
+    # (bit i of helper_thread set: process ROOT+1+i was forked by a helper thread, tid = pid + 1000, of its parent)
+    by_helper = {ROOT + 1 + i for i in range(len(parents)) if (helper_thread >> i) & 1}
+
+    def fake_open(path, *a, **k):
+        import io
+        parts = str(path).split("/")
+        if len(parts) == 6 and parts[1] == "proc" and parts[3] == "task" and parts[5] == "children":
+            pid, tid = int(parts[2]), int(parts[4])
+            if pid not in kids or tid not in (pid, pid + 1000):
+                raise FileNotFoundError(path)
+            cs = [c for c in kids[pid] if (c in by_helper) == (tid != pid)]
+            return io.StringIO("".join(f"{c} " for c in cs))
+        raise FileNotFoundError(path)
+
+    def listdir(path):
+        parts = str(path).split("/")
+        if len(parts) == 4 and parts[1] == "proc" and parts[3] == "task" and int(parts[2]) in kids:
+            return [parts[2], str(int(parts[2]) + 1000)]
+        raise FileNotFoundError(path)
 
     def check_output(cmd, stderr=None, text=None):
         if cmd[:2] != ["pgrep", "-P"]:
@@ -58,14 +79,20 @@ def check_posix_recursive_kill(parents: List[int], vanished: int) -> bool:
 
     import errno
     import signal
-    saved = (lu.subprocess, lu.os)
+    import os.path as _osp
+    saved = (lu.subprocess, lu.os, lu.__dict__.get("open"))
     lu.subprocess = NS(check_output=check_output, CalledProcessError=subprocess.CalledProcessError)
-    lu.os = NS(kill=kill)
+    lu.os = NS(kill=kill, listdir=listdir, path=_osp, getpid=lambda: 1)
+    lu.open = fake_open
     proc = FakeProcess(log, ROOT)
     try:
         lu._kill_process_tree_without_psutil(proc)
     finally:
-        lu.subprocess, lu.os = saved
+        lu.subprocess, lu.os = saved[:2]
+        if saved[2] is None:
+            del lu.open
+        else:
+            lu.open = saved[2]
     return _check_order(log, kids) and proc.joined == 1 and proc.killed == 0
 
 
